@@ -92,6 +92,27 @@ func RegisterMock(svc string, mk func() map[string]DirectInvoker) {
 	regMu.Unlock()
 }
 
+// doFrontDoor starts a listener that answers every request with a redirect (c.Num = 307 or 308, the two
+// statuses that oblige a client to repeat method and body) to the same path and query on c.URL: a moved
+// API, an http->https hop, a load balancer in front of the generated server.
+func doFrontDoor(c *cmd) {
+	ln, err := net.Listen("tcp", "127.0.0.1:0")
+	if err != nil {
+		emit(map[string]any{"ev": "error", "id": c.ID, "err": err.Error()})
+		return
+	}
+	target, status := c.URL, int(c.Num)
+	var hits atomic.Int64
+	hs := &http.Server{Handler: http.HandlerFunc(func(w http.ResponseWriter, r *http.Request) {
+		hits.Add(1)
+		io.Copy(io.Discard, r.Body)
+		w.Header().Set("Location", target+r.URL.RequestURI())
+		w.WriteHeader(status)
+	})}
+	go hs.Serve(ln)
+	emit(map[string]any{"ev": "frontdoor", "id": c.ID, "url": "http://" + ln.Addr().String()})
+}
+
 // doMockDirect calls a method of a mock implementation object as Go code would; calls with the same
 // reuse key go to the same object.
 func doMockDirect(c *cmd) {
@@ -807,6 +828,8 @@ func dispatch(c *cmd) {
 		doCall(c)
 	case "codec":
 		doCodec(c)
+	case "frontdoor":
+		doFrontDoor(c)
 	case "mockdirect":
 		doMockDirect(c)
 	case "codecburst":
